@@ -19,5 +19,5 @@ h = hashlib.sha256(open("coq/model.ml","rb").read() + open("driver/main.ml","rb"
 open("driver/.stamp","w").write(h)
 PY
 cp "$REPO/go.sum" harness/go.sum
-(cd harness && go1.26 build -tags verif -o ../build/harness .)
+(cd harness && go1.26 build -tags verif -o ../build/harness . && go1.26 test -c -tags verif -o ../build/synch .)
 echo setup ok
